@@ -113,6 +113,72 @@ Fixpoint run (s : fstate) (bs : list blk) : option fstate :=
   | b :: r => match block s b with None => None | Some s' => run s' r end
   end.
 
+(** ---- the gas figure of a block of delivered transactions ----
+    app/ante/evm/fee_market.go (GasWantedDecorator, last-but-one decorator of
+    the Ethereum route, last one of both Cosmos routes) adds the gas limit of
+    every transaction to the transient "gas wanted" through
+    x/feemarket/keeper/keeper.go AddTransientGasWanted:
+        result := k.GetTransientGasWanted(ctx) + gasWanted     (uint64 +)
+        k.SetTransientBlockGasWanted(ctx, result)
+    when the base fee is enabled (not NoBaseFee, height >= EnableHeight).  The
+    addition is Go's uint64 addition: it wraps, there is no guard and no cap.
+    BaseApp keeps the ante handler's writes exactly when the handler succeeds
+    (runTx: msCache.Write() after the ante handler, before the messages run), so a
+    transaction that fails later, in execution, still counts.
+    BaseApp charges every delivered transaction's gas meter reading (up to its
+    limit) to the block gas meter, EndBlock reads GasConsumedToLimit. *)
+Definition two64 : Z := 18446744073709551616.
+
+Record dtx := mkdtx {
+  t_declared : Z;      (* gas limit of the transaction (sum over its messages on the Ethereum route) *)
+  t_used     : Z;      (* gas charged to the block for it *)
+  t_ante     : bool    (* the ante handler succeeded *)
+}.
+
+Definition add_wanted (acc : Z) (t : dtx) : Z :=
+  if t_ante t then (acc + t_declared t) mod two64 else acc.
+
+Definition fold_wanted (txs : list dtx) : Z := fold_left add_wanted txs 0.
+
+Definition fm_enabled (p : params) (height : Z) : bool :=
+  negb (p_no_base_fee p) && (p_enable_height p <=? height).
+
+Definition block_wanted (enabled : bool) (txs : list dtx) : Z :=
+  if enabled then fold_wanted txs else 0.
+
+(** BaseApp's block gas meter: a limit only for Block.MaxGas > 0 *)
+Definition meter_limit (max_gas : option Z) : option Z :=
+  match max_gas with
+  | Some m => if 0 <? m then Some m else None
+  | None => None
+  end.
+
+Definition sum_used (txs : list dtx) : Z := fold_left (fun a t => a + t_used t) txs 0.
+
+Definition block_used (limit : option Z) (txs : list dtx) : Z :=
+  match limit with Some l => Z.min (sum_used txs) l | None => sum_used txs end.
+
+(** what EndBlock stores after a block of these transactions *)
+Definition block_figure (enabled : bool) (max_gas : option Z) (mult : Z) (txs : list dtx) : gres :=
+  end_block_gas (block_wanted enabled txs) (block_used (meter_limit max_gas) txs) mult.
+
+(** the same pipeline with the running total capped at the block gas limit
+    after every addition (NOT what the code does; kept for the refutation in
+    Props/C17.v: the cap acts before the multiplier) *)
+Definition add_wanted_capped (limit : Z) (acc : Z) (t : dtx) : Z :=
+  if t_ante t then
+    let r := (acc + t_declared t) mod two64 in if limit <? r then limit else r
+  else acc.
+Definition fold_wanted_capped (limit : Z) (txs : list dtx) : Z := fold_left (add_wanted_capped limit) txs 0.
+Definition block_figure_capped (max_gas : option Z) (mult : Z) (txs : list dtx) : gres :=
+  end_block_gas (fold_wanted_capped (gas_limit max_gas) txs) (block_used (meter_limit max_gas) txs) mult.
+
+(** a block of a real history: height, Block.MaxGas, delivered transactions *)
+Definition rblk := (Z * option Z * list dtx)%type.
+Definition to_blk (p : params) (rb : rblk) : blk :=
+  let '(h, mg, txs) := rb in
+  mkblk h mg (block_wanted (fm_enabled p h) txs) (block_used (meter_limit mg) txs).
+
 (** ---- correspondence with the harness ---- *)
 Definition res_eqb (a b : res) : bool :=
   match a, b with
@@ -163,6 +229,14 @@ Fixpoint check_seq_from (s : fstate) (l : list (blk * seq_obs)) : bool :=
 Definition check_seq (c : seq_case) : bool :=
   let '(p, g0, l) := c in check_seq_from (mkfs p g0) l.
 
+(** a "real" case: initial params and stored gas figure, then per block the
+    delivered transactions and the observed (base fee param, stored gas figure);
+    NoBaseFee and EnableHeight are constant over the blocks *)
+Definition real_case := (params * Z * list (rblk * seq_obs))%type.
+Definition check_real (c : real_case) : bool :=
+  let '(p, g0, l) := c in
+  check_seq_from (mkfs p g0) (map (fun bo => (to_blk p (fst bo), snd bo)) l).
+
 Section Mismatches.
   Context {A : Type} (chk : A -> bool).
   Fixpoint mismatches_from (i : nat) (cs : list A) : list nat :=
@@ -174,3 +248,4 @@ End Mismatches.
 Definition calc_mismatches := mismatches_from check_calc 0.
 Definition gas_mismatches := mismatches_from check_gas 0.
 Definition seq_mismatches := mismatches_from check_seq 0.
+Definition real_mismatches := mismatches_from check_real 0.
